@@ -41,14 +41,19 @@ type ClientInfo struct {
 var Clients = []ClientInfo{
 	{ID: "web", Secret: "web-secret", Redirect: "https://web.example.com/cb", Auth: "AMBasic"},
 	{ID: "web2", Secret: "web2-secret", Redirect: "https://web2.example.com/cb", Auth: "AMPost", JWT: true},
-	{ID: "native", Redirect: "http://127.0.0.1/cb", Auth: "AMNone"},
-	{ID: "spa", Redirect: "https://spa.example.com/cb", Auth: "AMNone", JWT: true},
+	// public clients: the storage holds a value no request carries, so that a client without a
+	// registered secret never passes AuthorizeClientIDSecret (not even with an empty secret)
+	{ID: "native", Secret: NoSecret, Redirect: "http://127.0.0.1/cb", Auth: "AMNone"},
+	{ID: "spa", Secret: NoSecret, Redirect: "https://spa.example.com/cb", Auth: "AMNone", JWT: true},
 	{ID: "webx", Secret: "webx-secret", Redirect: "https://webx.example.com/cb", Auth: "AMBasic", Expired: true},
 	{ID: "web2x", Secret: "web2x-secret", Redirect: "https://web2x.example.com/cb", Auth: "AMPost", JWT: true, Expired: true},
 	{ID: "pkjwt", Redirect: "https://pk.example.com/cb", Auth: "AMPkjwt"},                                                           // authenticates by client assertion only
 	{ID: "webnr", Secret: "webnr-secret", Redirect: "https://webnr.example.com/cb", Auth: "AMBasic", NoRefresh: true},               // token exchange without refresh_token grant
 	{ID: "web2nx", Secret: "web2nx-secret", Redirect: "https://web2nx.example.com/cb", Auth: "AMPost", JWT: true, NoExchange: true}, // no token-exchange grant
 }
+
+// NoSecret is what the store holds as secret of a public client.
+const NoSecret = "~no-secret-registered~"
 
 func ClientByID(id string) *ClientInfo {
 	for i := range Clients {
@@ -102,6 +107,7 @@ type World struct {
 	Dynamic bool // issuer derived from the request host (op.IssuerFromHost); else static
 	multi   bool // requests roam over the hosts
 	outages bool // the key storage fails now and then
+	Policy  refstore.TEPolicy
 }
 
 func (w *World) Issuer(h int) string { return "https://" + w.Hosts[h] }
@@ -197,22 +203,46 @@ func NewWorld(r drv.Rand) *World {
 		st.Clients[c.ID] = &refstore.Client{ID: c.ID, Secret: c.Secret, Redirects: []string{c.Redirect},
 			App: op.ApplicationTypeWeb, Auth: am, RespTypes: rts, Grants: grants, ATType: at}
 	}
+	for _, c := range Clients {
+		if c.Auth == "AMNone" {
+			st.Clients[c.ID].Secret = c.Secret
+		}
+	}
 	w := &World{St: st, R: r, Tags: map[string]bool{}, ver: "verifier-verifier-verifier-verifier-verifier-123", KeysUp: true}
 	// half of the worlds: a provider that derives its issuer from the request host and serves
 	// several tenants; the others: one static issuer
+	// the storage's token-exchange policy: refstore's own in most worlds
+	if r.Chance(1, 3) {
+		switch r.IntN(6) {
+		case 0:
+			w.Policy.NoDefaultType = true
+		case 1:
+			w.Policy.ForceType = oidc.TokenType(TypeURN[drv.Pick(r, []string{"TRefresh", "TId", "TAccess"})])
+		case 2:
+			w.Policy.ForceType = oidc.TokenType(TypeURN[drv.Pick(r, []string{"TJwt", "TUnknown"})])
+		case 3:
+			w.Policy.Subject = "impersonated"
+		case 4:
+			w.Policy.EmptyScopes = true
+		default:
+			w.Policy = refstore.TEPolicy{NoDefaultType: r.Bool(), Subject: drv.Pick(r, []string{"", "impersonated"}), EmptyScopes: r.Bool()}
+		}
+		w.tag("tepolicy=variant")
+	}
+	storage := st.AsStorageTEPolicy(w.Policy)
 	var err error
 	if r.Bool() {
 		w.Dynamic = true
 		w.Hosts = []string{"a.op.example.com", "b.op.example.com", "c.op.example.com"}
 		w.multi = r.Chance(2, 3)
-		w.F, err = opfix.NewWithIssuer(st, opfix.Options{}, op.IssuerFromHost(""))
+		w.F, err = opfix.NewWithStorage(st, storage, opfix.Options{}, op.IssuerFromHost(""))
 		w.tag("issuer=dynamic")
 		if w.multi {
 			w.tag("hosts=several")
 		}
 	} else {
 		w.Hosts = []string{"op.example.com"}
-		w.F, err = opfix.New(st, opfix.Options{})
+		w.F, err = opfix.NewWithStorage(st, storage, opfix.Options{}, op.StaticIssuer(opfix.Issuer))
 		w.tag("issuer=static")
 	}
 	if err != nil {
@@ -372,6 +402,9 @@ func BasicCred(id string) Cred {
 	c := ClientByID(id)
 	if c.Auth == "AMPkjwt" {
 		return Cred{Kind: "assert", ID: c.ID, Sec: "good"}
+	}
+	if c.Auth == "AMNone" { // nothing to prove: an empty secret
+		return Cred{Kind: "basic", ID: c.ID}
 	}
 	return Cred{Kind: "basic", ID: c.ID, Sec: c.Secret}
 }
@@ -814,7 +847,18 @@ func (w *World) TamperJWT(t *Tok) *Tok {
 // ---------------------------------------------------------------- case assembly
 
 func (w *World) Input() string {
-	return emit.Ctor("Hist", ClientsTerm(), emit.List(w.Ops))
+	return emit.Ctor("Hist", ClientsTerm(), w.PolicyTerm(), emit.List(w.Ops))
+}
+
+func (w *World) PolicyTerm() string {
+	force, subj := emit.None, emit.None
+	if w.Policy.ForceType != "" {
+		force = emit.Some(typeOfURN(string(w.Policy.ForceType)))
+	}
+	if w.Policy.Subject != "" {
+		subj = emit.Some(emit.Str(w.Policy.Subject))
+	}
+	return emit.Ctor("TEPolicy", emit.Bool(!w.Policy.NoDefaultType), force, subj, emit.Bool(w.Policy.EmptyScopes))
 }
 
 func (w *World) Observed() string { return emit.List(w.Outs) }
